@@ -139,6 +139,14 @@ Definition download_gen (trunc : bool) (size : N) (expected partial : bytes) (le
 Definition download := download_gen false.        (* the code as it is *)
 Definition download_fixed := download_gen true.   (* with the repair of notes/C31-fix.diff *)
 
+(* Guard of the conditional theorem: a response never carries more than [sz] bytes (the declared size), and the
+   status 206 is only sent when the requested range is really honoured. *)
+Definition beh_within (sz : nat) (b : beh) : bool :=
+  match b with
+  | Resp st hr body _ => (length body <=? sz)%nat && (hr || negb (st =? 206))
+  | _ => true
+  end.
+
 (* ---------------------------------------------------------------- correspondence interface *)
 
 Inductive case :=
